@@ -536,12 +536,9 @@ macro_rules! from_numeric_array {
                             let unexpected = || {
                                 Error::custom("Expected array of unsigned integers").with_span(expr)
                             };
-                            match expr {
+                            // see FromMeta::from_expr
+                            match peel_groups(expr) {
                                 Expr::Lit(lit) => $ty::from_value(&lit.lit),
-                                Expr::Group(group) => match &*group.expr {
-                                    Expr::Lit(lit) => $ty::from_value(&lit.lit),
-                                    _ => Err(unexpected()),
-                                },
                                 _ => Err(unexpected()),
                             }
                         })
